@@ -49,19 +49,31 @@ def main():
     dst = os.path.join(VERIF, "seeded", name)
     shutil.rmtree(dst, ignore_errors=True)
     shutil.copytree(mdir, dst)
-    # 4. run the checks against the change applied to /repo
-    rc, out = sh("git -C %s status --porcelain | grep -v '^??' | head -3" % REPO)
-    if out.strip():
-        print("refusing: /repo has local modifications:", out)
-        sys.exit(2)
-    rc, out = sh("git -C %s apply %s" % (REPO, patch))
-    if rc != 0:
-        print("patch does not apply to /repo:", out)
-        sys.exit(2)
+    # 4. run the checks against the change.  Default: applied to /repo itself and undone afterwards.
+    #    With MUTANT_ALT=1: applied to a fresh scratch worktree used through VERIF_REPO, so that /repo stays free.
+    alt = os.environ.get("MUTANT_ALT") == "1"
+    if alt:
+        scratch = "/tmp/mw-" + name
+        sh("git -C %s worktree remove --force %s" % (REPO, scratch))
+        rc, out = sh("git -C %s worktree add -q %s HEAD && git -C %s apply %s" % (REPO, scratch, scratch, patch))
+        if rc != 0:
+            print("cannot prepare scratch worktree:", out)
+            sys.exit(2)
+        envp = "VERIF_REPO=%s VERIF_EVIDENCE_DIR=%s/work/evidence-alt " % (scratch, VERIF)
+    else:
+        rc, out = sh("git -C %s status --porcelain | grep -v '^??' | head -3" % REPO)
+        if out.strip():
+            print("refusing: /repo has local modifications:", out)
+            sys.exit(2)
+        rc, out = sh("git -C %s apply %s" % (REPO, patch))
+        if rc != 0:
+            print("patch does not apply to /repo:", out)
+            sys.exit(2)
+        envp = ""
     try:
         for p in run_props:
             t0 = time.time()
-            rc, out = sh("./check %s --tier quick" % p, cwd=VERIF)
+            rc, out = sh("%s./check %s --tier quick" % (envp, p), cwd=VERIF)
             viol = [l for l in out.splitlines() if l.startswith("VIOLATION")]
             first = [l for l in out.splitlines() if l.startswith("  key=")][:3]
             meta["checks"][p] = {"exit": rc, "violations": len(viol), "first": first, "wall_s": round(time.time() - t0, 1),
@@ -72,10 +84,12 @@ def main():
             if rc not in (0, 1):
                 print(out[-1500:])
     finally:
-        sh("git -C %s checkout -- ." % REPO)
-        sh("git -C %s checkout -- evidence" % VERIF)
-        # drop the cached work of the mutated tree
-        rc, out = sh("ls -dt %s/work/tree-* | head -1" % VERIF)
+        if alt:
+            sh("git -C %s worktree remove --force %s" % (REPO, scratch))
+            sh("rm -rf %s/work/target-subj-*-alt* %s/work/target-alt* %s/work/harness-alt* %s/work/target-cli-alt*" % (VERIF, VERIF, VERIF, VERIF))
+        else:
+            sh("git -C %s checkout -- ." % REPO)
+            sh("git -C %s checkout -- evidence" % VERIF)
     meta["what_it_needs"] = open(os.path.join(mdir, "README.md")).read()[:3000] if os.path.exists(os.path.join(mdir, "README.md")) else ""
     meta["ran"] = "lib/mutant.py %s" % " ".join(sys.argv[1:])
     meta["detected_by"] = [p for p, c in meta["checks"].items() if c["exit"] == 1]
